@@ -442,6 +442,15 @@ func init() {
 				}
 				fmt.Fprintf(w, "cdrfile rewrite %s | %s\n", sFile(a), sFile(b))
 			}
+			// a write that fails (the destination is a directory; the panic is recovered as gin's recovery does for a request),
+			// then another file is written: it must come out as when written first
+			nFail := 16
+			if big {
+				nFail = 120
+			}
+			for i := 0; i < nFail; i++ {
+				fmt.Fprintf(w, "cdrfile afterfail %s | %s\n", sFile(genWF(r, r.intn(64), false)), sFile(genWF(r, r.intn(64), false)))
+			}
 			if cdrTmp != "" {
 				os.RemoveAll(cdrTmp)
 			}
@@ -554,6 +563,45 @@ func init() {
 						panic(err)
 					}
 					_ = os.Chmod(tmpPath(), os.FileMode(perm))
+				}
+				b := encodeToBytes(f)
+				g, p := decodeBytes(b)
+				if p {
+					return "panic " + hexOf(b)
+				}
+				return "ok " + hexOf(b) + " " + sFile(g)
+			case "afterfail":
+				// cdrfile afterfail <file A> | <file B>: Encoding(A) onto a directory (fails), then Encoding(B)
+				sep := -1
+				for i, x := range toks {
+					if x == "|" {
+						sep = i
+					}
+				}
+				if sep < 0 {
+					return "bad-op"
+				}
+				a, ok1 := pFile(toks[1:sep])
+				f, ok2 := pFile(toks[sep+1:])
+				if !ok1 || !ok2 {
+					return "bad-op"
+				}
+				failed := false
+				func() {
+					saved := os.Stdout
+					devnull, _ := os.OpenFile(os.DevNull, os.O_WRONLY, 0)
+					os.Stdout = devnull
+					defer func() {
+						os.Stdout = saved
+						devnull.Close()
+						if x := recover(); x != nil {
+							failed = true
+						}
+					}()
+					a.Encoding(filepath.Dir(tmpPath()))
+				}()
+				if !failed {
+					return "nofail"
 				}
 				b := encodeToBytes(f)
 				g, p := decodeBytes(b)
